@@ -994,6 +994,73 @@ func init() {
 }
 
 func init() {
+	// Two one-server changes proposed from the same four-voter configuration C by leaders of different terms (the
+	// hazard behind "a leader accepts a membership change only after committing an entry of its own term"):
+	// s1 appends D = C - {X} to its own log only and is cut off; N wins the next term, its no-op reaches one
+	// follower Z only (2 of 4) and, in that window, N is asked for E = C - {s1}; s1 then restarts next to Y, the
+	// follower that has seen nothing of N. If N had accepted E early, E commits on {N, Z} and is acknowledged,
+	// while s1 wins a later term under D with Y's vote and lacks E.
+	regScenario("member-early4", func() *Scenario {
+		return &Scenario{Nodes: voters(4), Devs: DevAll, Horizon: 1400,
+			Goal: func(w *World) bool { return w.vals["healed"] == 1 && w.converged() },
+			Steps: []Step{
+				stepApplyLeader("apply1"),
+				stepDo("isolate-s1+remove-X-on-s1", whenSettled, func(w *World) {
+					l := w.leader()
+					w.vals["s1"] = l.id
+					x := w.aFollower().id
+					w.vals["X"] = x
+					w.isolate(l.id, true)
+					w.remove(l, x, 0)
+				}),
+				urgent(stepDo("cut-new-leader-from-Y", func(w *World) bool {
+					l := w.leader()
+					return l != nil && l.id != w.vals["s1"]
+				}, func(w *World) {
+					n := w.leader().id
+					w.vals["N"] = n
+					var others []int
+					for _, o := range w.nodes {
+						if o.id != n && o.id != w.vals["s1"] {
+							others = append(others, o.id)
+						}
+					}
+					y, z := others[0], others[1]
+					if y == w.vals["X"] { // Y must be a voter of D
+						y, z = z, y
+					}
+					w.vals["Y"], w.vals["Z"] = y, z
+					w.cut(n, y, true)
+				})),
+				stepDo("remove-s1-on-new-leader", func(w *World) bool {
+					n := w.nodes[w.vals["N"]]
+					return n.up && n.r.State() == raft.Leader && w.netIdle()
+				}, func(w *World) {
+					w.remove(w.nodes[w.vals["N"]], w.vals["s1"], 0)
+					w.vals["mark"] = w.events
+				}),
+				stepDo("restart-s1-next-to-Y", func(w *World) bool { return w.netIdle() && w.events >= w.vals["mark"]+4 }, func(w *World) {
+					s1 := w.nodes[w.vals["s1"]]
+					w.crash(s1)
+					w.start(s1)
+					w.cut(s1.id, w.vals["Y"], false)
+					w.vals["mark2"] = w.events
+				}),
+				stepDo("heal-all", func(w *World) bool {
+					s1 := w.nodes[w.vals["s1"]]
+					return w.events >= w.vals["mark2"]+40 && (w.events >= w.vals["mark2"]+400 || (s1.r != nil && s1.r.State() == raft.Leader && w.netIdle()))
+				}, func(w *World) {
+					for k := range w.blocked {
+						delete(w.blocked, k)
+					}
+					w.vals["healed"] = 1
+				}),
+				stepDo("apply-final", whenSettled, func(w *World) { w.apply(w.leader(), 0) }),
+			}}
+	})
+}
+
+func init() {
 	// even number of voters: a majority of 4 is 3
 	regScenario("write4", func() *Scenario {
 		sc := scenarioByName("write3")
